@@ -17,3 +17,7 @@ import AvoVerif.Props.C03Pipeline
 #print axioms Avo.Alloc.compile_bound_ok
 #print axioms Avo.Alloc.compile_targets_unrestricted
 #print axioms Avo.Alloc.targets_in_table
+#print axioms Avo.Alloc.compile_targets_in_candidates
+#print axioms Avo.Alloc.compile_targets_not_sp_k0
+#print axioms Avo.Alloc.checkBindOne_in_colour_set
+#print axioms Avo.Alloc.spCopyFn_allocates
